@@ -17,7 +17,7 @@ BUILT = {
    note="Trusted: verif/sim/refproto (cross-checked against tridge rsync 3.2.7 --protocol=27 by go test ./refproto), fstree content generator.",
    tech="deterministic simulation with a reference protocol peer as oracle; bounded enumeration of a small-alphabet sub-space"),
  "C03": dict(cat="fault_enumeration", ref="DESIGN.md §6 C03",
-   text="Single faults enumerated by protocol position: the fault-free run's wire history is decoded to locate every token word, literal byte and trailer byte of every file; faulted re-runs flip one bit at a drawn position (10 per scenario quick, 60 thorough), or let an external writer change the basis at a drawn scheduler step; a reference sender additionally sends perturbed token streams under the true checksum. After every faulted run each file must hold its previous or exactly the sender's content, and success implies full update.",
+   text="Single faults enumerated by protocol position: the fault-free run's wire history is decoded to locate every token word, literal byte and trailer byte of every file; faulted re-runs flip one bit at a drawn position (10 per scenario quick, 30 thorough), or let an external writer change the basis at a drawn scheduler step; a reference sender additionally sends perturbed token streams under the true checksum. After every faulted run each file must hold its previous or exactly the sender's content, and success implies full update.",
    note="Positions are sampled per scenario, not exhausted; huge-length token flips and index/sum-head flips are outside the stated quantifier. Trusted: refproto parser, fstree snapshots.",
    tech="deterministic simulation with fault injection: protocol-addressed bit flips, basis mutation at scheduler steps, lying reference sender"),
  "C17": dict(cat="exploration", ref="DESIGN.md §6 C17",
